@@ -1,0 +1,8 @@
+//go:build !verif
+
+package control
+
+func verifObserveDomainRouting(ownerKey string, keysToUpdate [][4]uint32, valuesToUpdate []bpfDomainRouting, keysToDelete [][4]uint32) {
+}
+
+func verifYield(point string) {}
